@@ -226,6 +226,24 @@ def run(chk, replay=None):
             sub = (['mid'] if md['depth'] == 2 else []) + ['leafA', 'leafB']
             name_lines.append('(names (%s) (%s) %d)' % (' '.join(used), ' '.join(sub), md['n'])); name_meta.append((sorted(names), rec))
             stats['module_ok'] += 1
+        # a subtree with the names a and a_1 imported into a model that has a component a: the renamed a must not take a_1
+        if not replay:
+            twin = {'lib.cellml': '<?xml version="1.0" encoding="UTF-8"?>\n<model xmlns="http://www.cellml.org/cellml/2.0#" name="lib">\n'
+                                  '  <component name="outer"><variable name="x" units="second" interface="private" initial_value="1"/></component>\n'
+                                  '  <component name="a"><variable name="x" units="second" interface="public"/></component>\n'
+                                  '  <component name="a_1"><variable name="y" units="second" interface="public" initial_value="2"/></component>\n'
+                                  '  <connection component_1="outer" component_2="a"><map_variables variable_1="x" variable_2="x"/></connection>\n'
+                                  '  <encapsulation><component_ref component="outer"><component_ref component="a"/><component_ref component="a_1"/></component_ref></encapsulation>\n</model>\n',
+                    'origin.cellml': '<?xml version="1.0" encoding="UTF-8"?>\n<model xmlns="http://www.cellml.org/cellml/2.0#" name="main">\n'
+                                     '  <import xmlns:xlink="http://www.w3.org/1999/xlink" xlink:href="lib.cellml"><component component_ref="outer" name="m1"/></import>\n'
+                                     '  <component name="a"><variable name="z" units="second" initial_value="3"/></component>\n</model>\n'}
+            stats['module_worlds'] += 1
+            err, res = flatten_world(hxi, twin, wd)
+            rec = {'files': twin, 'kind': 'twin-names'}
+            if err:
+                oracle.append((err, rec))
+            else:
+                name_lines.append('(names (m1 a) (a a_1) 1)'); name_meta.append((sorted(component_names(res['dump'])), rec))
         model = run_lines(drv, ['flatten'], name_lines)[1] if os.path.exists(drv) and name_lines else []
         for (names, rec), m in zip(name_meta, model):
             if sorted(m.split()) != names:
